@@ -73,7 +73,7 @@ unchanged (its jumps never overshoot `k`). -/
 theorem fast_skip_to (resp : List α) (la k : Nat) (hla : 0 < la) (res inp : List α)
     (hk : k + la ≤ res.length)
     (hlo : ∀ p (hp : p < k), o.nonneg (res[p]'(by omega)) = true)
-    (hhi : ∀ p (h1 : k ≤ p) (h2 : p < k + la), o.nonneg (res[p]'(by omega)) = false) :
+    (hhi : ∀ p (_h1 : k ≤ p) (h2 : p < k + la), o.nonneg (res[p]'(by omega)) = false) :
     ∀ d i, i + d = k → fast o resp 0 la i res inp = fast o resp 0 la k res inp := by
   intro d
   induction d using Nat.strongRecOn with
@@ -108,6 +108,367 @@ theorem fast_skip_to (resp : List α) (la k : Nat) (hla : 0 < la) (res inp : Lis
             rw [this] at hnn; cases hnn
         exact ih (k - (i + j + 1)) (by omega) (i + j + 1) (by omega)
 
+theorem subScaled_getElem? (v : α) (ss rs : List α) (j : Nat) :
+    (subScaled o v ss rs)[j]? =
+      (ss[j]?).map fun s => match rs[j]? with
+        | some r => o.sub s (o.mul v r)
+        | none => s := by
+  induction ss generalizing rs j with
+  | nil => cases rs <;> simp [subScaled]
+  | cons s ss ih =>
+    cases rs with
+    | nil => simp [subScaled]
+    | cons r rs => cases j <;> simp [subScaled, ih]
+
+theorem applyAt_getElem? (res resp : List α) (i : Nat) (v : α) (j : Nat) :
+    (applyAt o res resp i v)[j]? =
+      if j < i then res[j]? else
+        (res[j]?).map fun s => match resp[j - i]? with
+          | some r => o.sub s (o.mul v r)
+          | none => s := by
+  unfold applyAt
+  by_cases hj : j < i
+  · simp only [hj, if_true]
+    by_cases hl : j < res.length
+    · rw [List.getElem?_append_left (by simp; omega)]; simp [hj]
+    · rw [List.getElem?_eq_none (by simp [subScaled_length]; omega),
+        List.getElem?_eq_none (by omega)]
+  · simp only [hj, if_false]
+    by_cases hl : i ≤ res.length
+    · rw [List.getElem?_append_right (by simp; omega), subScaled_getElem?]
+      have e1 : (res.take i).length = i := by simp; omega
+      have e2 : i + (j - i) = j := by omega
+      simp only [e1, List.getElem?_drop, e2]
+    · have e : res[j]? = none := List.getElem?_eq_none (by omega)
+      rw [List.getElem?_eq_none (by simp [subScaled_length]; omega), e]; rfl
+
+/-- The guards of `nn_greedy_deconvolution` pass when the response is negative on the window
+and `look_ahead > 0`. -/
+theorem nnGreedy_ok (b : Bool) (signal resp : List α) (off la : Nat)
+    (hr : ResponseNeg o resp off la) (hla : 0 < la) :
+    nnGreedy o b signal resp off la =
+      .ok ((loopResult o b signal resp off la).1,
+        sumSq o (loopResult o b signal resp off la).1,
+        (loopResult o b signal resp off la).2) := by
+  obtain ⟨hlen, hneg⟩ := hr
+  unfold nnGreedy
+  rw [if_neg (by omega), if_neg (by omega), if_neg (by simpa [List.all_eq_true] using hneg),
+    if_neg (by omega)]
+
+/-- Negative on the first 13 samples ⇒ negative on every window the wire settings use. -/
+theorem responseNeg_of_take13 (resp : List α) (h13 : 13 ≤ resp.length)
+    (hneg : ∀ r ∈ resp.take 13, o.isNeg r = true) (off la : Nat) (h : off + la ≤ 13) :
+    ResponseNeg o resp off la := by
+  refine ⟨by omega, ?_⟩
+  intro r hr
+  apply hneg
+  unfold respWindow at hr
+  obtain ⟨j, hj, rfl⟩ := List.mem_iff_getElem.mp hr
+  simp only [List.length_take, List.length_drop] at hj
+  rw [List.mem_iff_getElem]
+  refine ⟨off + j, by simp; omega, ?_⟩
+  simp [List.getElem_take, List.getElem_drop]
+
 end generic
+
+/-! ### The isolated pulse over an ordered field -/
+
+/-- The signal of one avalanche of amplitude `a` at sample `k`: `a · response` shifted by `k`,
+truncated at the end of the waveform (`n` samples), zero before `k` and after the end of the
+response. -/
+def pulse {F : Type} [Field F] (n k : Nat) (a : F) (resp : List F) : List F :=
+  (List.range n).map fun j =>
+    if k ≤ j then (match resp[j - k]? with | some r => a * r | none => 0) else 0
+
+/-- One spike of amplitude `a` at index `k`. -/
+def spike {F : Type} [Field F] (n k : Nat) (a : F) : List F :=
+  (List.range n).map fun j => if j = k then a else 0
+
+section fieldBasic
+variable {F : Type} [Field F]
+
+@[simp] theorem pulse_length (n k : Nat) (a : F) (resp : List F) :
+    (pulse n k a resp).length = n := by simp [pulse]
+
+theorem pulse_getElem (n k : Nat) (a : F) (resp : List F) (j : Nat) (hj : j < n) :
+    (pulse n k a resp)[j]'(by simpa using hj) =
+      if k ≤ j then (match resp[j - k]? with | some r => a * r | none => 0) else 0 := by
+  simp [pulse]
+
+theorem pulse_getElem? (n k : Nat) (a : F) (resp : List F) (j : Nat) :
+    (pulse n k a resp)[j]? =
+      if j < n then
+        some (if k ≤ j then (match resp[j - k]? with | some r => a * r | none => 0) else 0)
+      else none := by
+  by_cases hj : j < n
+  · rw [List.getElem?_eq_getElem (by simpa using hj), pulse_getElem n k a resp j hj, if_pos hj]
+  · rw [List.getElem?_eq_none (by simpa using hj), if_neg hj]
+
+theorem set_zeros_eq_spike (n k : Nat) (a : F) :
+    (List.replicate n (0 : F)).set k a = spike n k a := by
+  apply List.ext_getElem?
+  intro j
+  simp only [spike, List.getElem?_set, List.getElem?_map,
+    List.getElem?_replicate, List.length_replicate]
+  by_cases hj : j < n
+  · by_cases hjk : k = j
+    · subst hjk; simp [hj]
+    · have : ¬ j = k := fun h => hjk h.symm
+      simp [hj, hjk, this]
+  · by_cases hjk : k = j
+    · subst hjk; simp [hj]
+    · simp [hj, hjk]
+
+end fieldBasic
+
+section field
+variable {F : Type} [Field F] [LE F] [LT F] [LawfulOrderLT F] [IsLinearOrder F] [OrderedRing F]
+  [DecidableLT F] [DecidableLE F]
+
+theorem sumSq_nonneg_aux (top : F) (res : List F) (acc : F) (h : 0 ≤ acc) :
+    0 ≤ res.foldl (fun acc x => (fieldOps top).add acc ((fieldOps top).mul x x)) acc := by
+  induction res generalizing acc with
+  | nil => exact h
+  | cons x xs ih =>
+    apply ih
+    have : 0 ≤ x * x := by have := OrderedRing.sq_nonneg (a := x); grind
+    simp only [fieldOps_add, fieldOps_mul]; grind
+
+/-- A sum of squares is non-negative. -/
+theorem sumSq_nonneg (top : F) (res : List F) : 0 ≤ sumSq (fieldOps top) res :=
+  sumSq_nonneg_aux top res 0 (by grind)
+
+omit [LawfulOrderLT F] [IsLinearOrder F] [OrderedRing F] in
+theorem sumSq_zeros (top : F) (n : Nat) :
+    sumSq (fieldOps top) (List.replicate n (0 : F)) = 0 := by
+  unfold sumSq
+  simp only [fieldOps_sumInit]
+  induction n with
+  | zero => rfl
+  | succ n ih =>
+    simp only [List.replicate_succ, List.foldl_cons, fieldOps_add, fieldOps_mul]
+    have : (0 : F) + 0 * 0 = 0 := by grind
+    rw [this]; exact ih
+
+/-- Once the best sum of squares is `0`, no grid point whose guards pass can replace it
+(`residual < best_residual` is strict and sums of squares are `≥ 0`). -/
+theorem lsLoop_keep (top : F) (b : Bool) (signal resp : List F) (g : List (Nat × Nat))
+    (hg : ∀ p ∈ g, ResponseNeg (fieldOps top) resp p.1 p.2 ∧ 0 < p.2) (best : List F) :
+    lsLoop (fieldOps top) b signal resp g 0 best = .ok best := by
+  induction g with
+  | nil => rfl
+  | cons p rest ih =>
+    obtain ⟨off, la⟩ := p
+    obtain ⟨hr, hla⟩ := hg (off, la) (List.mem_cons_self ..)
+    have := sumSq_nonneg top (loopResult (fieldOps top) b signal resp off la).1
+    have hlt : (fieldOps top).lt (sumSq (fieldOps top)
+        (loopResult (fieldOps top) b signal resp off la).1) 0 = false := by
+      simp only [fieldOps_lt, decide_eq_false_iff_not]; grind
+    simp only [lsLoop, nnGreedy_ok (fieldOps top) b signal resp off la hr hla, hlt,
+      Bool.false_eq_true, if_false]
+    exact ih fun p hp => hg p (List.mem_cons_of_mem _ hp)
+
+theorem zipWith_div_pulse (top a : F) (rs : List F) (hneg : ∀ r ∈ rs, r < 0) :
+    List.zipWith (fieldOps top).div (rs.map (a * ·)) rs = List.replicate rs.length a := by
+  induction rs with
+  | nil => rfl
+  | cons r rs ih =>
+    have hr : r < 0 := hneg r (List.mem_cons_self ..)
+    have : a * r / r = a := by grind
+    simp only [List.map_cons, List.zipWith_cons_cons, fieldOps_div, this, List.length_cons,
+      List.replicate_succ]
+    rw [ih fun r hr => hneg r (List.mem_cons_of_mem _ hr)]
+
+omit [LawfulOrderLT F] [IsLinearOrder F] [OrderedRing F] in
+theorem foldl_min_replicate (top a : F) (m : Nat) :
+    (List.replicate m a).foldl (fieldOps top).min a = a := by
+  induction m with
+  | zero => rfl
+  | succ m ih => simp only [List.replicate_succ, List.foldl_cons, fieldOps_min, ite_self, ih]
+
+/-- `min_j (a·r_j / r_j) = a`. -/
+theorem stepVal_pulse (top a : F) (rs : List F) (hne : rs ≠ []) (hneg : ∀ r ∈ rs, r < 0) :
+    stepVal (fieldOps top) (rs.map (a * ·)) rs = a := by
+  unfold stepVal
+  rw [zipWith_div_pulse top a rs hneg]
+  cases rs with
+  | nil => exact absurd rfl hne
+  | cons r rs => simp only [List.length_cons, List.replicate_succ]; exact foldl_min_replicate ..
+
+omit [LE F] [LT F] [LawfulOrderLT F] [IsLinearOrder F] [OrderedRing F] [DecidableLT F]
+  [DecidableLE F] in
+theorem window_pulse (n k la : Nat) (a : F) (resp : List F) (hk : k + la ≤ n)
+    (hla : la ≤ resp.length) :
+    window (pulse n k a resp) k 0 la = (resp.take la).map (a * ·) := by
+  have hb : k + 0 + la ≤ (pulse n k a resp).length := by simpa using hk
+  apply List.ext_getElem
+  · rw [window_length _ _ _ _ hb]; simp; omega
+  · intro j h1 h2
+    rw [window_length _ _ _ _ hb] at h1
+    rw [window_getElem _ _ _ _ _ hb h1, pulse_getElem n k a resp (k + 0 + j) (by omega)]
+    have e2 : resp[j]? = some (resp[j]'(by omega)) := List.getElem?_eq_getElem (by omega)
+    simp [e2]
+
+omit [LawfulOrderLT F] [IsLinearOrder F] [OrderedRing F] in
+/-- Subtracting `a · response` at `k` from the pulse leaves the zero residual. -/
+theorem applyAt_pulse (top : F) (n k : Nat) (a : F) (resp : List F) :
+    applyAt (fieldOps top) (pulse n k a resp) resp k a = List.replicate n (0 : F) := by
+  apply List.ext_getElem?
+  intro j
+  rw [applyAt_getElem?, pulse_getElem?, List.getElem?_replicate]
+  by_cases hj : j < n
+  · simp only [hj, if_true]
+    by_cases hjk : j < k
+    · simp only [hjk, if_true, show ¬ k ≤ j by omega, if_false]
+    · simp only [hjk, if_false, show k ≤ j by omega, if_true, Option.map_some]
+      cases resp[j - k]? with
+      | none => rfl
+      | some r =>
+        simp only [fieldOps_sub, fieldOps_mul]
+        congr 1; grind
+  · simp only [hj, if_false]
+    split <;> rfl
+
+/-- One grid point `(offset, look_ahead) = (0, la)`: the residual is identically zero, the sum
+of squares is `0` and the recovered input is the spike. -/
+theorem nnGreedy_pulse (top : F) (n k la : Nat) (a : F) (resp : List F) (ha : 0 < a)
+    (h13 : 13 ≤ resp.length) (hneg : ∀ r ∈ resp.take 13, r < 0)
+    (hla : 0 < la) (hla13 : la ≤ 13) (hk : k + la ≤ n) :
+    nnGreedy (fieldOps top) true (pulse n k a resp) resp 0 la
+      = .ok (List.replicate n 0, 0, spike n k a) := by
+  have hneg' : ∀ r ∈ resp.take 13, (fieldOps top).isNeg r = true := by
+    intro r hr; simpa using hneg r hr
+  have hRN := responseNeg_of_take13 (fieldOps top) resp h13 hneg' 0 la (by omega)
+  have hnegla : ∀ r ∈ resp.take la, r < 0 := by
+    intro r hr
+    apply hneg
+    obtain ⟨j, hj, rfl⟩ := List.mem_iff_getElem.mp hr
+    simp only [List.length_take] at hj
+    rw [List.mem_iff_getElem]
+    exact ⟨j, by simp; omega, by simp [List.getElem_take]⟩
+  have hloop : loopResult (fieldOps top) true (pulse n k a resp) resp 0 la
+      = (List.replicate n 0, spike n k a) := by
+    simp only [loopResult, if_true, pulse_length, fieldOps_zero]
+    -- phase 1: skip to `k`
+    rw [fast_skip_to (fieldOps top) resp la k hla (pulse n k a resp) (List.replicate n 0)
+      (by simpa using hk) ?lo ?hi k 0 (by omega)]
+    case lo =>
+      intro p hp
+      rw [pulse_getElem n k a resp p (by omega)]
+      simp [show ¬ k ≤ p by omega]
+    case hi =>
+      intro p h1 h2
+      rw [pulse_getElem n k a resp p (by omega)]
+      have e2 : resp[p - k]? = some (resp[p - k]'(by omega)) :=
+        List.getElem?_eq_getElem (by omega)
+      have hr : resp[p - k]'(by omega) < 0 := by
+        apply hneg
+        rw [List.mem_iff_getElem]
+        exact ⟨p - k, by simp; omega, by simp [List.getElem_take]⟩
+      have := OrderedRing.mul_neg_of_pos_of_neg ha hr
+      simp only [h1, if_true, e2, fieldOps_nonneg, decide_eq_false_iff_not]
+      grind
+    -- phase 2: the step at `k`
+    have hb : k + 0 + la ≤ (pulse n k a resp).length := by simpa using hk
+    rw [fast.eq_1]
+    simp only [dif_pos hb, window_pulse n k la a resp hk (by omega)]
+    have hnone : lastNonneg (fieldOps top) ((resp.take la).map (a * ·)) = none := by
+      rw [lastNonneg_none_iff, List.any_eq_false]
+      intro x hx
+      obtain ⟨r, hr, rfl⟩ := List.mem_map.mp hx
+      have := OrderedRing.mul_neg_of_pos_of_neg ha (hnegla r hr)
+      simp only [fieldOps_nonneg, decide_eq_true_eq]
+      grind
+    have hrw : respWindow resp 0 la = resp.take la := by simp [respWindow]
+    have hne : resp.take la ≠ [] := by
+      intro h
+      have := congrArg List.length h
+      rw [List.length_take, List.length_nil] at this; omega
+    simp only [hnone, hrw, stepVal_pulse top a _ hne hnegla, applyAt_pulse, set_zeros_eq_spike]
+    -- phase 3: the residual is zero, nothing more happens
+    apply fast_all_nonneg (fieldOps top) resp 0 la hla
+    intro x hx
+    rw [(List.mem_replicate.mp hx).2]
+    simp only [fieldOps_nonneg, decide_eq_true_eq]
+    grind
+  rw [nnGreedy_ok (fieldOps top) true _ resp 0 la hRN hla, hloop]
+  simp only [sumSq_zeros]
+
+/-- The first grid point alone (the statement `isolated_pulse` is built on). -/
+theorem isolated_pulse_partial (top : F) (n k : Nat) (a : F) (resp : List F) (ha : 0 < a)
+    (h13 : 13 ≤ resp.length) (hneg : ∀ r ∈ resp.take 13, r < 0) (hk : k + 3 ≤ n) :
+    nnGreedy (fieldOps top) true (pulse n k a resp) resp 0 3
+      = .ok (List.replicate n 0, 0, (List.range n).map fun j => if j = k then a else 0) :=
+  nnGreedy_pulse top n k 3 a resp ha h13 hneg (by omega) (by omega) hk
+
+theorem grid_wire_head : grid 0 1 3 12 = (0, 3) :: (grid 0 1 3 12).tail := by decide
+
+theorem grid_wire_mem : ∀ p ∈ grid 0 1 3 12, p.1 + p.2 ≤ 13 ∧ 0 < p.2 := by decide
+
+/-- **isolated_pulse**: the wire deconvolution of a single avalanche of amplitude `a > 0` at
+sample `k` (at least 3 samples before the end of the waveform) is exactly one spike `a` at
+index `k`. -/
+theorem isolated_pulse (top : F) (htop : 0 < top) (n k : Nat) (a : F) (resp : List F)
+    (ha : 0 < a) (h13 : 13 ≤ resp.length) (hneg : ∀ r ∈ resp.take 13, r < 0)
+    (hk : k + 3 ≤ n) :
+    wireDeconv (fieldOps top) resp (pulse n k a resp)
+      = .ok ((List.range n).map fun j => if j = k then a else 0) := by
+  have hneg' : ∀ r ∈ resp.take 13, (fieldOps top).isNeg r = true := by
+    intro r hr; simpa using hneg r hr
+  unfold wireDeconv lsDeconv lsDeconvWith
+  rw [grid_wire_head]
+  have hlt : (fieldOps top).lt 0 (fieldOps top).inf = true := by simpa using htop
+  simp only [lsLoop, isolated_pulse_partial top n k a resp ha h13 hneg hk, hlt, if_true]
+  apply lsLoop_keep
+  intro p hp
+  obtain ⟨h1, h2⟩ := grid_wire_mem p (List.mem_of_mem_tail hp)
+  exact ⟨responseNeg_of_take13 (fieldOps top) resp h13 hneg' p.1 p.2 h1, h2⟩
+
+/-- The form in the property text (`k + 18 ≤ n`: the whole 13-sample front of the response and
+more fits in the waveform); a special case of `isolated_pulse`. -/
+theorem isolated_pulse_18 (top : F) (htop : 0 < top) (n k : Nat) (a : F) (resp : List F)
+    (ha : 0 < a) (h13 : 13 ≤ resp.length) (hneg : ∀ r ∈ resp.take 13, r < 0)
+    (hk : k + 18 ≤ n) :
+    wireDeconv (fieldOps top) resp (pulse n k a resp)
+      = .ok ((List.range n).map fun j => if j = k then a else 0) :=
+  isolated_pulse top htop n k a resp ha h13 hneg (by omega)
+
+/-- A block of one wire: with the `1×1` solve `A = [1]` the block deconvolution returns the
+spike on that wire, whatever its number `w` (position on the ring) is. -/
+theorem isolated_pulse_block (top : F) (htop : 0 < top) (n k : Nat) (a : F) (resp : List F)
+    (ha : 0 < a) (h13 : 13 ≤ resp.length) (hneg : ∀ r ∈ resp.take 13, r < 0)
+    (hk : k + 3 ≤ n)
+    (cholSolve : Nat → Nat → (Nat → Nat → F) → (Nat → Nat → F))
+    (hc : ∀ i y r c, cholSolve i 1 y r c = y r c) (w : Nat) :
+    wireRangeDeconv (fieldOps top) cholSolve resp [(w, pulse n k a resp)]
+      = .ok [(w, (List.range n).map fun j => if j = k then a else 0)] := by
+  have hsig : ((List.range (maxLen [pulse n k a resp])).map fun row =>
+      cholSolve (maxLen [pulse n k a resp]) (0 + 1)
+        (yMatrix (fieldOps top) [pulse n k a resp]) row 0) = pulse n k a resp := by
+    have hm : maxLen [pulse n k a resp] = n := by simp [maxLen]
+    rw [hm]
+    apply List.ext_getElem
+    · simp
+    · intro j h1 h2
+      simp only [List.length_map, List.length_range] at h1
+      simp [hc, yMatrix, List.getD_eq_getElem?_getD, h1]
+  simp only [wireRangeDeconv, wireSignalsDeconv, List.map_cons, List.map_nil, List.isEmpty_cons,
+    Bool.false_eq_true, if_false, List.length_cons, List.length_nil]
+  have hr1 : List.range (0 + 1) = [0] := rfl
+  simp only [hr1, List.map_cons, List.map_nil]
+  rw [hsig, isolated_pulse top htop n k a resp ha h13 hneg hk]
+  rfl
+
+end field
+
+/-- Non-vacuity: a concrete response over `Rat` with 13 negative leading samples (and a positive
+tail), `n = 20`, `k = 4`, amplitude `3`, `top = 10^6`. -/
+example :
+    wireDeconv (fieldOps (1000000 : Rat))
+        [-1, -8, -20, -30, -31, -27, -21, -15, -10, -7, -5, -3, -2, 1, 2, 1]
+        (pulse 20 4 (3 : Rat)
+          [-1, -8, -20, -30, -31, -27, -21, -15, -10, -7, -5, -3, -2, 1, 2, 1])
+      = .ok ((List.range 20).map fun j => if j = 4 then (3 : Rat) else 0) :=
+  isolated_pulse 1000000 (by decide) 20 4 3 _ (by decide) (by decide) (by decide) (by decide)
 
 end AlphaG.Deconv
